@@ -56,6 +56,11 @@ CLAIMED = {
             "symbolic execution of the real contact code on z3-term jets + z3 nlsat per scalar obligation (pinned-input refutation first); float replay of models",
             "Bounded grid (evidence.coverage.bounds). Sphere2Sphere friction q-derivatives are decided per basis direction; in the quick tier only two "
             "seeded directions with a short time-out (undecided entries are listed as inconclusive). Known finding C06-s2s-gamma_F_dot."),
+    "C07": ("proof", "Power balance h.u = -dE_pot/dt (Spring, Force), passivity identities of KelvinVoigt and Maxwell elements (power + stored-energy "
+            "rate equals minus a square), compliance residual zero at the force-form force with W_c = W_l, on two-point interactions and on revolute "
+            "joints (states on the joint manifold), and System.E_pot = sum of contributions, decided for all real states and parameters.", "4/C07",
+            "symbolic execution of the real force-element code on z3-term jets + z3 nlsat per scalar obligation; float replay of models",
+            "Bounded grid (evidence.coverage.bounds); rod line load is covered in the rod checks' systems."),
 }
 
 NOT_APPLICABLE = {
